@@ -46,6 +46,14 @@ def _node(name, **attrs):
     return Obj(name, attrs=attrs)
 
 
+def _self_recursion(I, name: str) -> bool:
+    """the call is the running function calling ITSELF (the recursive descent of a tree walk, written as a nested closure or as a method)"""
+    if not I.stack:
+        return False
+    top = I.stack[-1].qualname.split(".")[-1]
+    return top == name.split(".")[-1] and not top.startswith("<") and (name == top or name.startswith(("self.", "cls.")))
+
+
 def _depth(db, chk, cs):
     rule = "C13.R1-depth"
     ref = f"{CS}:CallStackGraph._compute_depth"
@@ -54,7 +62,7 @@ def _depth(db, chk, cs):
     rec = []
 
     def hook(I, name, pos, kw, node):
-        if name == "_bfs" and I.stack and I.stack[-1].qualname.endswith("._bfs"):
+        if _self_recursion(I, name):
             rec.append([to_term(p) for p in pos])
             return None
         return NotImplemented
@@ -99,7 +107,7 @@ def _height(db, chk, cs):
     IDX, K1, K2 = T.P("IDX"), T.P("K1"), T.P("K2")
 
     def hook(I, name, pos, kw, node):
-        if name == "_dfs" and I.stack and I.stack[-1].qualname.endswith("._dfs"):
+        if _self_recursion(I, name):
             return ("H", to_term(pos[0]))
         return NotImplemented
 
@@ -128,7 +136,7 @@ def _kernel_info(db, chk, cs, rule="C13.R1-kernel-info"):
     fields = ["count", "sum_dur", "kernel_span", "first_start", "last_end"]
 
     def hook(I, name, pos, kw, node):
-        if name == "_dfs" and I.stack and I.stack[-1].qualname.endswith("._dfs"):
+        if _self_recursion(I, name):
             k = to_term(pos[0])
             return Obj("cinfo", attrs={f: ("KI", k, f) for f in fields})
         if name.endswith("DataFrame.from_dict"):
